@@ -329,7 +329,7 @@ def gdraws(draws):
 
 
 def _sp_ok(o):
-    return (tgen.all_int(o["vals"]) and o["nnz"] == len(o["subs"]) == len(o["vals"])
+    return (o.get("dtype", "float64") in ("float64", "int64") and tgen.all_int(o["vals"]) and o["nnz"] == len(o["subs"]) == len(o["vals"])
             and (o["vals_shape"] == [len(o["vals"]), 1] or (o["nnz"] == 0)))
 
 
@@ -618,6 +618,8 @@ TRIGGERS = {
     # the first draw under this seed contains a repeated row (only then can the redraw loop end short of the request)
     "first_draw_has_repeated_row": lambda c: c.op in ("sp_from_function", "sptenrand") and _first_draw_repeats(c),
     "density_times_size_below_one": lambda c: c.op == "sptenrand" and c.args["mode"] == "density" and 0 < _total(c) * _req(c) < 1,
+    "single_pair": lambda c: (c.op == "aggregator" and len(c.args["subs"]) == 1 and len(c.args["vals"]) == 1)
+    or (c.op == "sptendiag" and len(c.args["e"]) == 1),
     "zero_count": lambda c: c.op in ("sp_from_function", "sptenrand") and _norm_count(c) == 0,
     "request_equals_size": lambda c: c.op in ("sp_from_function", "sptenrand")
     and (_total(c) * _req(c) if (c.op == "sptenrand" and c.args["mode"] == "density") else _req(c)) == _total(c),
@@ -661,4 +663,14 @@ def _w_full():
     return None if S.nnz == 4 else f"density 1.0 returned nnz={S.nnz}"
 
 
-WITNESSES = {"A-46": _w_a46, "C20-N1": _w_density, "C20-N2": _w_zero, "C20-N3": _w_full}
+def _w_single():
+    import numpy as np
+    import pyttb as ttb
+    try:
+        S = ttb.sptensor.from_aggregator(np.array([[0]]), np.array([[3.0]]), (4,), "max")
+    except Exception as ex:
+        return f"from_aggregator([[0]],[[3.]],(4,),'max') raised {type(ex).__name__}: {str(ex)[:80]}"
+    return None if str(S.vals.dtype) == "float64" and S.vals.tolist() == [[3.0]] else f"single pair gives vals dtype {S.vals.dtype}"
+
+
+WITNESSES = {"C20-N4": _w_single, "A-46": _w_a46, "C20-N1": _w_density, "C20-N2": _w_zero, "C20-N3": _w_full}
